@@ -359,7 +359,12 @@ var c09ArgKinds = []c09ArgKind{
 	{"prefix", []string{"prefix"}, []string{"p", "my-pfx", "_p1"}, func(s string) string { return verdict(yang.IsIdentifier(s)) }},
 	{"identifier-ref", []string{"if-feature", "base", "type", "uses"},
 		[]string{"f", "p:f", "a-b:c.d", "_a:_b", "string"}, func(s string) string { return verdict(yang.IsIdentifierRef(s)) }},
-	{"date", []string{"revision", "revision-date"}, []string{"2020-01-01", "1999-12-31", "2024-02-29"}, func(s string) string {
+	// the date of a revision is a day of the (Gregorian) calendar; for a revision-date only the shape is asserted
+	{"date", []string{"revision"}, []string{"2020-01-01", "1999-12-31", "2024-02-29", "2000-02-29"}, func(s string) string {
+		lex, cal := yang.IsDate(s)
+		return verdict(lex && cal)
+	}},
+	{"date-shape", []string{"revision-date"}, []string{"2020-01-01", "1999-12-31", "2024-02-29"}, func(s string) string {
 		lex, cal := yang.IsDate(s)
 		if !lex {
 			return "reject"
@@ -510,7 +515,7 @@ func c09Mutations(valid []string) []string {
 	hostile := []string{"", " ", "TRUE", "True", "t", "T", "f", "F", "FALSE", "1", "0", "yes", "no", "+1", "+0", "-0", "00", "01", "007", "0x10", "0X1f", "0b1", "0o7", "1_0", "1e1", "1.0",
 		"4294967296", "2147483648", "-2147483649", "18446744073709551615", "99999999999999999999", "é", "aé", "日", "\u00aa", "a\u00ba", "\u00c0\u00c1", "a\u00b5", "Ω", "a b", "xml", "XMLa", "xMl-b", "x ml", "a:b:c", ":a", "a:", "/", "//a", "/a/", "a/",
 		"/a//b", "..", "1..", "..2", "1...2", "1..2..3", "|", "1|", "|1", "1||2", "min", "max", "max..min", "a..b", "1..a", "0x1..2", "+1..2", "1.5", ".5", "5.", "-", "19", "0", "20", "1a", "unbounded ", "Unbounded",
-		"current ", "Current", "user\n", "2020-1-01", "2020-01-1", "20200101", "2020/01/01", "+020-01-01", "2020-13-01", "2020-02-30", "0000-00-00", "2020-01-01 ", "abcd-ef-gh"}
+		"current ", "Current", "user\n", "2020-1-01", "2020-01-1", "20200101", "2020/01/01", "+020-01-01", "2020-13-01", "2020-02-30", "0000-00-00", "2100-02-29", "1900-02-29", "2200-02-29", "2400-02-29", "2023-02-29", "2024-02-30", "2020-04-31", "2020-06-31", "2020-00-10", "2020-12-00", "2020-12-32", "2020-01-01 ", "abcd-ef-gh"}
 	for _, h := range hostile {
 		add(h)
 	}
